@@ -10,6 +10,8 @@ Wiedemann / Berlekamp–Massey code of intsparse.rs have no theorem (K/O only).
 -/
 import Ymq.Lemmas.IntMatCrt
 import Ymq.Lemmas.IntMatPerm
+import Ymq.Lemmas.SnfCols
+import Ymq.Lemmas.SnfDiag
 import Mathlib.Algebra.Order.BigOperators.Group.List
 import Mathlib.Data.Int.GCD
 
@@ -217,5 +219,71 @@ theorem perm_sign (n : Nat) (σ : Equiv.Perm (Fin n)) :
 
 /-- the model computes: the 3-cycle `0 → 1 → 2 → 0` is sorted with two swaps (even) -/
 example : permSwaps [1, 2, 0] = some 2 := by decide
+
+/-! ### Smith normal form
+
+`rowSpan h n M` (Ymq/Lemmas/SnfBasic.lean) is the `Z/h`-module generated by the rows of `M` in
+`(Z/h)^n`: the relation lattice `L + hZ^n` modulo `h`; when `h` is a multiple of the exponent of
+`Z^n/L` (in particular the lattice index, which is what `compute_lattice_index` supplies) the group
+presented by `M` is `(Z/h)^n / rowSpan h n M`. Every operation of the code reduces its results
+modulo `h`, so integer determinants are *not* preserved; what is preserved is this module, up to
+the automorphism of `(Z/h)^n` recorded in `q`. `n = gens.len()`. -/
+
+open Ymq.Snf
+
+/-- **Elementary operations are unimodular over `Z/h`** — PARTIAL: proved for the `i128` arithmetic
+path `0 < h < 2^63` (`s.small`), on which `normalize`, `submul_n::<1>`, `eliminate`, `colsub`,
+`colswap` only use `modh128`/`rem_euclid`. Missing: the `I256` path (`h ≥ 2^63`) and the 8-row
+block of `eliminate_block`, which need the correctness of the reciprocal reduction `modh256`
+(compared with the code and oracle-checked, not proved).
+
+* row operations (`normalize`: a row times a unit of `Z/h`; `submul_n` with one source row:
+  `row_i -= m·row_j`; `eliminate`: that, or `(row_i, row_j) ← (a·row_i + b·row_j, c·row_i + d·row_j)`
+  with `ad - bc = 1` from the extended gcd) leave `q`, `gens`, `h` alone and keep the relation
+  module: the new rows are invertible `Z/h`-combinations of the old ones;
+* `colsub(i, j, k)` applies the automorphism `v_i ← v_i - k·v_j` of `(Z/h)^n` to every row of `rows`
+  and to every row of `q` (square state);
+* `colswap(i, j)` exchanges coordinates `i, j` in `rows` and `q` and re-triangularises with row
+  operations: the relation module becomes its image under the coordinate swap `φ`, the rows of `q`
+  are mapped by the same `φ`. -/
+theorem snf_ops_unimodular_partial (s s' : St) (hs : s.small = true) :
+    (∀ i k, s.normalize i k = some s' → RowEquiv s s') ∧
+    (∀ i j m, i ≠ j → s.submulN i j [m] = some s' → RowEquiv s s') ∧
+    (∀ i j k, s.eliminate i j k = some s' → RowEquiv s s') ∧
+    (∀ i j k, i < s.gens.length → j < s.gens.length → i ≠ j →
+      s.rows.length ≤ s.gens.length → s.q.length ≤ s.gens.length → s.colsub i j k = some s' →
+      s'.gens = s.gens ∧ s'.h = s.h ∧
+      ∃ φ : (Fin s.gens.length → ZMod s.h) ≃ₗ[ZMod s.h] (Fin s.gens.length → ZMod s.h),
+        RowsMapped s.h s.gens.length φ s.rows s'.rows ∧ RowsMapped s.h s.gens.length φ s.q s'.q) ∧
+    (∀ i j, i < s.gens.length → j < s.gens.length → s.colswap i j = some s' →
+      s'.gens = s.gens ∧ s'.h = s.h ∧
+      ∃ φ : (Fin s.gens.length → ZMod s.h) ≃ₗ[ZMod s.h] (Fin s.gens.length → ZMod s.h),
+        RowsMapped s.h s.gens.length φ s.q s'.q ∧
+        rowSpan s.h s.gens.length s'.rows = (rowSpan s.h s.gens.length s.rows).map φ.toLinearMap) := by
+  refine ⟨?_, ?_, ?_, ?_, ?_⟩
+  · intro i k h; exact normalize_spec s s' i k hs h
+  · intro i j m hij h; exact submul1_spec s s' i j m hs hij h
+  · intro i j k h; exact eliminate_spec s s' i j k hs h
+  · intro i j k hi hj hij hr hq h
+    obtain ⟨h1, h2, _, _, _, φ, h3, h4⟩ := colsub_spec s s' i j k hs hi hj hij hr hq h
+    exact ⟨h1, h2, φ, h3, h4⟩
+  · intro i j hi hj h; exact colswap_spec s s' i j hs hi hj h
+
+/-- non-vacuity: on the state `h = 100`, `rows = [[4, 6], [6, 3]]` the general branch of `eliminate`
+(Bezout combination of the two rows) runs and returns `[[2, 97], [0, 88]]` (also a K corpus line) -/
+example : ∃ s : St, s.small = true ∧
+    (s.eliminate 0 1 0).map (·.rows) = some [[2, 97], [0, 88]] :=
+  ⟨{ rows := [[4, 6], [6, 3]], q := [], gens := [2, 3], removed := [], h := 100, qm := 0, qe := 0 },
+    by decide, by decide⟩
+
+/-- **`reduce` ends on a diagonal presentation whose entries multiply to `h`**: when the model of
+`SmithNormalForm::reduce` returns a state (no assertion failed), its matrix is diagonal and the
+product of the diagonal is exactly the class number `h` held by the state — the saturating `i128`
+product of the code cannot hide an overflow since `h < 2^125`. (`h` is the lattice index found by
+`compute_lattice_index`, i.e. `|det|` of any basis of the relation lattice; the model never assigns
+the field `h`.) -/
+theorem snf_diag (s s' : St) (h : s.reduce = some s') (h0 : 0 < s'.h) (h1 : s'.h < 2 ^ 125) :
+    IsDiag s'.rows ∧ ∃ ds, diagList s'.rows = some ds ∧ ds.prod = (s'.h : Int) :=
+  reduce_diag h h0 h1
 
 end Ymq.C19
